@@ -15,15 +15,15 @@ ONE_X = (39170, 39171, 11913, 5892)
 
 
 def expected_layout(magic, version):
+    v = tuple(version[:2])
+    if v < (3, 0):
+        return "ts"
     if 3000 <= magic < 4000:
         if magic < 3210:
             return "ts"
         if magic < 3392:
             return "ts_size"
         return "pep552"
-    if magic >= 5000 or magic == 1011:
-        return "ts"
-    v = tuple(version[:2])
     if v < (3, 3):
         return "ts"
     if v < (3, 7):
